@@ -90,7 +90,8 @@ def form_src(f):
 
 
 def spec_source(spec):
-    lines = [HEADER]
+    # "postponed": the module is written with `from __future__ import annotations` (field types are strings)
+    lines = [("from __future__ import annotations\n" if spec.get("postponed") else "") + HEADER]
     for c in spec["classes"]:
         w = c.get("weight")
         if c["abstract"]:
@@ -414,6 +415,24 @@ FIXED += [
         _c("LU", "Expr", [("xs", ("ann", ("list", ("union", [E, ("sym", "Lit")])), ("ListSize", 1, 2)))]),
         _c("LT", "Expr", [("xs", ("ann", ("list", ("tuple", [E, I01])), ("ListSize", 1, 1)))]),
         _c("LL", "Expr", [("xs", ("ann", ("list", ("list", I03)), ("ListSize", 2, 3)))])]},
+]
+
+
+# grammars declared with postponed (string) annotations; only the tree and stack representations are run on them (the
+# gene-keyed representations key their genes by repr(type), which is not stable for re-evaluated string annotations)
+POSTPONED = [
+    {"id": "p-window", "start": "Shape", "postponed": True, "classes": [
+        _c("Shape", "", abstract=True),
+        _c("Window", "Shape", [("lo", ("ann", ("base", "int"), ("IntRange", 0, 9))),
+                               ("hi", ("ann", ("base", "int"), ("IntRange", 1000, 9000)))]),
+        _c("Pair", "Shape", [("a", ("sym", "Shape")), ("b", ("sym", "Shape"))]),
+        _c("Buckets", "Shape", [("few", ("ann", ("list", ("base", "int")), ("ListSize", 0, 1))),
+                                ("many", ("ann", ("list", ("base", "int")), ("ListSize", 2, 4)))])]},
+    {"id": "p-refined", "start": "R", "postponed": True, "classes": [
+        _c("R", "", abstract=True),
+        _c("R1", "R", [("i", ("ann", ("base", "int"), ("IntRange", -3, 3))),
+                       ("f", ("ann", ("base", "float"), ("FloatRange", -1.5, 2.0)))]),
+        _c("R2", "R", [("i", ("ann", ("base", "int"), ("IntList", [2, 3, 5]))), ("r", ("sym", "R"))])]},
 ]
 
 
